@@ -89,3 +89,11 @@ Proof.
   exact (same_histories _ _ _ _ _ _ _ _ (wf_store_sched dec file codec scheds reqs root levels bs Hb Hq W) W _ eq_refl eq_refl ops Ha).
 Qed.
 Print Assumptions C11_reader_histories.
+
+(* opening a file: Metadata::read_from over a scheduled source (the same seeks; every read_u32 /
+   read_u64 / read_u8 a read_exact under its own schedule) returns exactly what it returns on a plain
+   source — the same trailer or the same error — for every byte string *)
+Theorem C11_open_under_schedule : forall scheds f, (forall i, benign (scheds i)) ->
+  open_meta_sched scheds f = open_meta f.
+Proof. exact open_meta_sched_eq. Qed.
+Print Assumptions C11_open_under_schedule.
